@@ -61,6 +61,9 @@ def check(ctx):
         fh.write("package a\n")
     os.symlink(os.path.join(R, "a"), os.path.join(R, "lnk_a"))
     os.symlink("/proc", os.path.join(R, "lnk_proc"))
+    for name, target in (("lnk_tmp", "/tmp"), ("lnk_dev", "/dev"), ("lnk_sys", "/sys"), ("lnk_root", "/"),
+                         ("lnk_rel_tmp", "../" * (R.count("/")) + "tmp")):
+        os.symlink(target, os.path.join(R, name))
     os.symlink(os.path.join(R, "a", "b"), os.path.join(R, "b", "lnk_ab"))
     os.makedirs("/tmp/vf_c14_under_tmp", exist_ok=True)
     gocache = os.path.join(ctx.scratch, "gocache")
@@ -69,6 +72,8 @@ def check(ctx):
                 R + "/lnk_proc", R + "/b/lnk_ab", R + "/a/file.go", R + "/a/../a-b", R + "/a/./b/", R + "//a///b",
                 "a", "./a/b", "a/../b", "../" + os.path.basename(R) + "/a", ".", "deep/er/est/../../er",
                 R + "/sp ace", R + "/missing", "missing/x",
+                R + "/lnk_tmp", R + "/lnk_dev", R + "/lnk_sys", R + "/lnk_root/proc", R + "/lnk_root/tmp/", "lnk_rel_tmp",
+                R + "/lnk_root/usr",
                 "/proc", "/tmp", "/dev", "/sys", "/app/sfw", "/gocache", "/tmp/../proc", "/proc/", "/tmp/.", "//tmp",
                 "/proc/sys", "/tmp/vf_c14_under_tmp", "/dev/null", "/", "/usr", "/usr/lib", "/usr/lib/..", "/etc"]
     sets = [[]] + [[p] for p in universe]
